@@ -13,3 +13,4 @@ open GoRedis
 #print axioms C01_ctor_nil
 #print axioms C01_ctor_string_array
 #print axioms C01_ctor_float
+#print axioms C01_source_type_bytes
